@@ -8,7 +8,7 @@ def member(desc, tier, seed):
 
 
 def run(tier='quick', seed=0):
-    members = [d for d in corpus(['dvmet'], tier) if d.metrics]
+    members = [d for d in corpus(['dvmet', 'mix'], tier) if d.metrics]
     results = harness.run_pool('bounded.drivers.C17', 'member', members, tier, seed)
     return harness.aggregate(
         results,
